@@ -35,6 +35,15 @@ def handleArg (nh : Nat) (s : String) : Option Nat :=
 
 def nat? (s : String) : Option Nat := if s.startsWith "+" ∨ s.startsWith "-" then none else s.toNat?
 
+def intArg (s : String) : Option Int :=
+  if s.startsWith "-" ∧ s.length > 1 then
+    match nat? (s.drop 1).toString with
+    | some a => if a > 1000 then none else some (- Int.ofNat a)
+    | none => none
+  else match nat? s with
+    | some a => if a > 1000 then none else some (Int.ofNat a)
+    | none => none
+
 /-- structure below buffer `b`; `path` guards against cycles -/
 def tree : Nat → State → List Nat → Option Nat → String
   | 0, _, _, _ => "~"
@@ -56,6 +65,7 @@ def tree : Nat → State → List Nat → Option Nat → String
           | .tok => "T"
           | .arr => "A"
           | .mref => "M"
+          | .uref => "U"
         tag ++ "[" ++ " ".intercalate items ++ "]"
 
 def render (st : RSt) (m : State) (verdict ret : String) : RSt × String :=
@@ -242,6 +252,87 @@ def step (st : RSt) (w : List String) : RSt × String :=
                   render st m4 "ok" "ptr"
                 | _, _ => render st m1 "refused" "null"
           | _, _, _, _ => bad
+        -- reference_array<Obj> (harness/drvxx_refs.cpp)
+        | "rdrop", [] =>
+          let (m1, _) := arrayClone m h none true
+          render st m1 "ok" "-"
+        | "rclone", [h2] =>
+          match handleArg st.nh h2 with
+          | some h2 =>
+            -- reference<content>::operator=: nothing when both hold the same buffer
+            if m.handle h2 = m.handle h then render st m "ok" "-"
+            else
+              let m1 := match m.handle h2 with
+                | some a => addrefBuf m a
+                | none => m
+              let m2 := m1.setHandle h (m.handle h2)
+              let m3 := match m.handle h with
+                | some b => unrefBuf (fuelOf m2) m2 b
+                | none => m2
+              render st m3 "ok" "-"
+          | none => bad
+        | "rins", [pos, sh] =>
+          match intArg pos, nat? sh with
+          | some pos, some sh =>
+            if sh > 1 then bad
+            else if (kindOf m h).isSome ∧ kindOf m h ≠ some .uref then bad
+            else
+              let o := m.objs.length + 1
+              let m0 := { m with objs := m.objs ++ [({ refs := 1, sharable := sh = 1 } : Obj)], log := m.log ++ [Ev.mnew o] }
+              let len := count m0 h
+              let p : Option Nat := if pos < 0 then (if pos + Int.ofNat len < 0 then none else some (pos + Int.ofNat len).toNat) else some pos.toNat
+              match p with
+              | none => render st (unrefObj m0 o) "refused" "false"
+              | some p =>
+                let m1 := match m0.handle h with
+                  | some _ => m0
+                  | none => (m0.newBuf { ref := 1, kind := .uref, elems := [] }).setHandle h (some m0.bufs.length)
+                let (m2, r) := detach m1 h
+                match r.bind m2.buf?, r with
+                | some x, some b =>
+                  let padded := x.elems ++ List.replicate (p - x.elems.length) (Elem.mref none)
+                  let es := padded.take p ++ [Elem.mref (some o)] ++ padded.drop p
+                  render st (m2.setBuf b { x with elems := es }) "ok" "true"
+                | _, _ => render st (unrefObj m2 o) "refused" "false"
+          | _, _ => bad
+        | "rset", [pos, sh] =>
+          match intArg pos, nat? sh with
+          | some pos, some sh =>
+            if sh > 1 then bad
+            else if (kindOf m h).isSome ∧ kindOf m h ≠ some .uref then bad
+            else
+              let o := m.objs.length + 1
+              let m0 := { m with objs := m.objs ++ [({ refs := 1, sharable := sh = 1 } : Obj)], log := m.log ++ [Ev.mnew o] }
+              let len := count m0 h
+              let p : Option Nat :=
+                if pos < 0 then (if pos + Int.ofNat len < 0 then none else some (pos + Int.ofNat len).toNat)
+                else if pos.toNat ≥ len then none else some pos.toNat
+              match p, m0.handle h with
+              | some p, some b =>
+                (match m0.buf? b with
+                 | some x =>
+                   -- in place, whoever shares the buffer: the old reference is released, the new one stored
+                   let m1 := finiElem m0 (x.elems.getD p (.mref none))
+                   (match m1.buf? b with
+                    | some y => render st (m1.setBuf b { y with elems := y.elems.set p (.mref (some o)) }) "ok" "true"
+                    | none => render st m1 "ok" "true")
+                 | none => render st (unrefObj m0 o) "refused" "false")
+              | _, _ => render st (unrefObj m0 o) "refused" "false"
+          | _, _ => bad
+        | "rclear", [] =>
+          if (kindOf m h).isSome ∧ kindOf m h ≠ some .uref then bad
+          else
+            match m.handle h with
+            | some b =>
+              (match m.buf? b with
+               | some x =>
+                 let n := (x.elems.filter fun e => e ≠ .mref none).length
+                 let m1 := x.elems.foldl finiElem m
+                 (match m1.buf? b with
+                  | some y => render st (m1.setBuf b { y with elems := y.elems.map fun _ => Elem.mref none }) "ok" (toString n)
+                  | none => render st m1 "ok" (toString n))
+               | none => render st m "ok" "0")
+            | none => render st m "ok" "0"
         | "mnew", [k, sh] =>
           match nat? k, nat? sh with
           | some k, some sh =>
